@@ -416,6 +416,10 @@ func TestVerif_C31(t *testing.T) {
 		}
 		r.Eval(1)
 		r.Distinct(fmt.Sprintf("%d|%d|%d|%d|%d|%d", senderKind, localKind, sigKind, scheme, objKind, envKind))
+		if ci%997 == 0 {
+			r.Sample(map[string]any{"case": ci, "sender": vf31SenderKinds[senderKind], "local": vf31LocalKinds[localKind], "signature": vf31SigKinds[sigKind], "scheme": scheme,
+				"object": vf31ObjKinds[objKind], "environment": vf31EnvKinds[envKind], "reference_may_store": mayStore, "reference_authorised": authorised})
+		}
 		statusOK := rerr == nil && resp != nil && resp.GetStatus().GetCode() == 0
 		code := "transport-error"
 		if rerr == nil && resp != nil {
